@@ -35,6 +35,7 @@ UNARY_EDITS = (
     ("sel", ("in_seq", R("a"), (R("q"), L(1)))),
     ("sel", ("and", Q_GT_0, ("plit", False))),
     ("sel", ("and", ("plit", False), Q_GT_0)),
+    ("sel", ("or", ("gt", R("b"), L(0)), ("and", Q_GT_0, ("plit", False)))),
     ("sel", ("gt", R("c"), L(0))),
     ("sel", ("lt", R("x"), L(0))),
     S((R("q"), True)),
